@@ -15,13 +15,22 @@ tie:   exact correspondence (ctx.coq_bool_cases, model at BigQ): radial grids wi
        get_shell_grid(i, r_sq) for every shell, constructor rejections.  Every preset x element is constructed on
        the implementation with a radial grid of the prescribed size; degrees and indices are compared with the
        model inside Coq, points and weights with the product formula shell by shell.
-search: every observation is judged by the property's own product formula (numpy float oracle / exact Fractions);
+       Presets are also built with the three non-default angular methods (radial grid with r = 0, a node inside every
+       sector and on some sector bounds, off-origin centre); the method handed to the size->degree conversion in the
+       sector-radius route is extracted from the source (the caller's `method` or a literal; anything else fails closed)
+       and the model / preset_okb / preset_ok_builds use it the way the code does.
+search: every observation is judged by the property's own product formula (numpy float oracle / exact Fractions), the
+       preset grids by "every shell has at least the tabulated number of points in the requested method's table";
        unbuildable presets are reported with the concrete call.
+broken tie: when the extraction fails closed, the model does not build or a proof about the generated definitions
+       breaks, all implementation-side oracles still run and the first failing input that is not a listed known
+       finding becomes the replay (Ctx.broken_tie).
 """
 from __future__ import annotations
 
 import ast
 import json
+import sys
 import warnings
 from fractions import Fraction
 
@@ -36,7 +45,7 @@ METHODS = [
     ("ahrens_beylkin", "AHRENS_BEYLKIN", "AhrensBeylkin"),
 ]
 CTOR = {m: c for m, _, c in METHODS}
-LISTED_BAD = [("sg_1", 19), ("sg_3", 14)]
+LISTED_BAD = [("sg_3", 14)]    # (preset, element) pairs that cannot be built at the current commit (known finding)
 MAXREP = 3
 
 # the concrete calls under which the two genuine defects of the pinned code are listed
@@ -145,6 +154,24 @@ def extract_cfg():
     body_src = "\n".join(ast.unparse(s) for s in top.body)
     if "sizes=sector_sizes" not in body_src or "for idx in range(len(rad)) for _ in range(rad[idx])" not in body_src:
         raise ValueError("from_preset: unexpected shell-count route")
+    for body in (top.body, el.body, el.orelse):
+        ctor_calls = [c for st_ in body for c in ast.walk(st_) if isinstance(c, ast.Call) and _is_name(c.func, "cls")]
+        if len(ctor_calls) != 1 or not any(k.arg == "method" and _is_name(k.value, "method") for k in ctor_calls[0].keywords):
+            raise ValueError("from_preset: every route must end in one cls(..., method=method) call")
+    conv_calls = [c for st_ in el.orelse for c in ast.walk(st_) if isinstance(c, ast.Call) and isinstance(c.func, ast.Attribute)
+                  and c.func.attr == "convert_angular_sizes_to_degrees"]
+    if len(conv_calls) != 1:
+        raise ValueError("from_preset: expected exactly one size->degree conversion in the sector-radius route")
+    cc = conv_calls[0]
+    margs = [k.value for k in cc.keywords if k.arg == "method"] + list(cc.args[1:2])
+    if len(cc.args) < 1 or not _is_name(cc.args[0], "npt") or len(margs) != 1 or len(cc.args) + len(cc.keywords) != 2:
+        raise ValueError("from_preset: unexpected arguments of convert_angular_sizes_to_degrees")
+    if _is_name(margs[0], "method"):
+        conv_method = None                       # the caller's method
+    elif isinstance(margs[0], ast.Constant) and margs[0].value in CTOR:
+        conv_method = margs[0].value             # a fixed method, whatever the caller asked for
+    else:
+        raise ValueError("from_preset: the method handed to convert_angular_sizes_to_degrees is neither `method` nor a known literal")
     else_src = "\n".join(ast.unparse(s) for s in el.orelse)
     if "_find_degrees_for_radial_points(rgrid.points, rad, degs)" not in else_src or "convert_angular_sizes_to_degrees(npt" not in else_src:
         raise ValueError("from_preset: unexpected sector-radius route")
@@ -173,7 +200,7 @@ def extract_cfg():
             or "radial_pts.append(sum(rad))" not in gsrc:
         raise ValueError("_get_rgrid_size: unexpected shape")
     cfg = {"count_presets": count_presets, "thr_preset": thr_preset, "thr": thr,
-           "size_presets": size_presets, "size_special": size_special}
+           "size_presets": size_presets, "size_special": size_special, "conv_method": conv_method}
     return cfg, units
 
 
@@ -269,7 +296,7 @@ def gen(ctx: Ctx):
              "| Maxdet => max_det_npoints | AhrensBeylkin => ahrens_beylkin_npoints end.")
     L.append("Definition impl_cfg : pcfg := PCfg [" + "; ".join(coq_str(s) for s in cfg["count_presets"]) + "] "
              + coq_str(cfg["thr_preset"]) + " " + z(cfg["thr"]) + " [" + "; ".join(coq_str(s) for s in cfg["size_presets"]) + "] "
-             + coq_str(cfg["size_special"]) + ".")
+             + coq_str(cfg["size_special"]) + (" None" if cfg["conv_method"] is None else f" (Some {CTOR[cfg['conv_method']]})") + ".")
     names = []
     for preset, t in presets.items():
         rows = []
@@ -452,6 +479,22 @@ def judge_grid(sph, tabs, meth, r, w, req_degs, center, rotate, obs):
 
 
 # ====================================================================== building implementation objects
+def judge_preset(sph, tabs, row, meth, rpts, rw, cen, rotate, obs):
+    """The property on one constructed preset grid: one shell per radial point, every shell's degree is a supported degree
+    of the requested method with at least the tabulated number of points, product structure.  None or (what, text)."""
+    kind, rad, npt = row
+    if len(obs["degs"]) != len(rpts):
+        return ("length", f"{len(obs['degs'])} shells for {len(rpts)} radial points")
+    ss = [npt[i] for i in range(min(len(rad), len(npt))) for _ in range(int(rad[i]))] if kind == "I" else None
+    for k in range(len(rpts)):
+        rs = resolve_deg(tabs, meth, obs["degs"][k])
+        want = (ss[k] if k < len(ss) else 0) if kind == "I" else npt[sum(1 for b in rad if Fraction(rpts[k]) > Fraction(b))]
+        if rs is None or rs[0] != obs["degs"][k] or rs[1] < want:
+            return ("coarser", f"shell {k} (r={rpts[k]!r}) has degree {obs['degs'][k]} ({rs[1] if rs else None} points with method '{meth}'), "
+                               f"the preset tabulates {want} points for it")
+    return judge_grid(sph, tabs, meth, rpts, rw, obs["degs"], cen, rotate, obs)
+
+
 def make_rgrid(r, w):
     from grid.basegrid import OneDGrid
 
@@ -685,21 +728,34 @@ def _run(ctx: Ctx):
 
     from grid.atomgrid import AtomGrid, _get_rgrid_size
 
-    tabs, cfg, params, presets = gen(ctx)
-    # translation validation of the extracted constants against the imported modules
-    for _, P, _ in METHODS:
-        for kind in ("NPOINTS", "DEGREES"):
-            if list(getattr(ga, f"{P}_{kind}").items()) != list(tabs[f"{P}_{kind}"].items()):
-                ctx.fail("gen_tables", f"table:{P}_{kind}", None, f"extracted table {P}_{kind} differs from the imported module's", found_input=False)
-    if dict(gu._DEFAULT_POWER_RTRANSFORM_PARAMS) != params:
-        ctx.fail("gen_tables", "table:_DEFAULT_POWER_RTRANSFORM_PARAMS", None, "extracted default radial parameters differ from the imported module's", found_input=False)
-
-    ctx.copy_coq("C05")
-    status = ctx.coq_build()
-    ctx.register_props(status)
-    for f in ("C05_model.v", "C05_model_exec.v", "C05_gen.v"):
-        if not status.get(f, False):
-            raise RuntimeError(f"{f} does not compile: " + ctx.logs.get(f, "")[-600:])
+    gen_err, coq_ok = None, False
+    try:
+        tabs, cfg, params, presets = gen(ctx)
+    except Exception as e:  # noqa: BLE001 - the extraction fails closed: the tie is broken, but the implementation is still searched
+        gen_err = e
+        ctx._tie = ("translator(atomgrid.py / angular.py / utils.py / data/prune_grid -> C05_gen.v)", e)
+        tabs = {f"{P}_{kind}": dict(getattr(ga, f"{P}_{kind}")) for _, P, _ in METHODS for kind in ("NPOINTS", "DEGREES")}
+        cfg, params = None, dict(gu._DEFAULT_POWER_RTRANSFORM_PARAMS)
+        try:
+            presets = load_presets()
+        except Exception:  # noqa: BLE001
+            presets = {}
+    if gen_err is None:
+        # translation validation of the extracted constants against the imported modules
+        for _, P, _ in METHODS:
+            for kind in ("NPOINTS", "DEGREES"):
+                if list(getattr(ga, f"{P}_{kind}").items()) != list(tabs[f"{P}_{kind}"].items()):
+                    ctx.fail("gen_tables", f"table:{P}_{kind}", None, f"extracted table {P}_{kind} differs from the imported module's", found_input=False)
+        if dict(gu._DEFAULT_POWER_RTRANSFORM_PARAMS) != params:
+            ctx.fail("gen_tables", "table:_DEFAULT_POWER_RTRANSFORM_PARAMS", None, "extracted default radial parameters differ from the imported module's", found_input=False)
+        ctx.copy_coq("C05")
+        status = ctx.coq_build()
+        ctx.register_props(status)
+        broken = [f for f in ("C05_model.v", "C05_model_exec.v", "C05_gen.v") if not status.get(f, False)]
+        if broken:
+            ctx._tie = (f"model build ({', '.join(broken)})", RuntimeError(ctx.logs.get(broken[0], "")[-300:]))
+        else:
+            coq_ok = True
 
     import time as _time
 
@@ -719,8 +775,8 @@ def _run(ctx: Ctx):
     # (with the constants and tables of the current source) predict to be unbuildable?
     all_pairs = [(p, a) for p in presets for a in presets[p]["rows"]]
     okb_cases = [f"match find_row preset_tables {coq_str(p)} {z(a)} with Some row => "
-                 f"preset_okb QOps ntab impl_cfg preset_tables Lebedev {coq_str(p)} {z(a)} row | None => false end" for p, a in all_pairs]
-    model_bad = [all_pairs[i] for i in ctx.coq_bool_cases("C05_okb", HEADER0, okb_cases, shard=350)]
+                 f"preset_okb QOps dtab ntab impl_cfg preset_tables Lebedev {coq_str(p)} {z(a)} row | None => false end" for p, a in all_pairs]
+    model_bad = [all_pairs[i] for i in ctx.coq_bool_cases("C05_okb", HEADER0, okb_cases, shard=350)] if coq_ok else []
     ctx.cov["model_unbuildable_pairs"] = [f"{p}/{a}" for p, a in model_bad]
     lap("okb")
 
@@ -896,7 +952,8 @@ def _run(ctx: Ctx):
     ctx.count("sector_lookup_calls", n_lookup)
 
     # ------------------------------------------------------------------ C. every preset x element is constructed
-    count_type = lambda p, a: (p in cfg["count_presets"]) or (p == cfg["thr_preset"] and a > cfg["thr"])  # noqa: E731
+    # The property reads the data file: an integer "<Z>_rad" column holds shell counts (the radial grid must have their sum
+    # of points), a float column holds sector radii.  Which route the code takes is the code's business.
     if ctx.quick:
         pick = set(LISTED_BAD) | set(model_bad)
         for p in presets:
@@ -908,59 +965,86 @@ def _run(ctx: Ctx):
         pairs = [pa for pa in all_pairs if pa in pick]
     else:
         pairs = all_pairs
-    ctx.cov["preset_pairs_total"] = len(all_pairs)
-    ctx.cov["preset_pairs_constructed"] = len(pairs)
     built_failures = {}
 
     def prescribed(p, a):
-        if p not in cfg["size_presets"]:
-            return None
         st, v = observe(lambda: _get_rgrid_size(p, a))
-        return int(v[0]) if st == "ok" else None
+        return int(v[0]) if st == "ok" and isinstance(v[0], (int, np.integer)) else None
 
-    def tab_size(p, a, rpts, k):
-        kind, rad, npt = presets[p]["rows"][a]
-        if count_type(p, a):
-            ss = [npt[i] for i in range(len(rad)) for _ in range(int(rad[i]))] if kind == "I" else []
-            return ss[k]
-        return npt[sum(1 for b in rad if Fraction(rpts[k]) > Fraction(b))]
+    def geometric_grid(n):
+        top = 70.0
+        rpts = [0.0] + [float(2.0 ** (-8 + (np.log2(top) + 8) * k / (n - 1))) for k in range(1, n)] if n > 1 else [1.0]
+        return rpts, [float(1 + (k % 3)) / 4 for k in range(n)], f"rgrid=<{n} points 0, 2^-8..70 geometric>"
 
+    def sector_grid(rad):
+        """r = 0, a node inside every sector, beyond the last bound, and on some bounds (the inner sector owns its bound)"""
+        bs = sorted(float(x) for x in rad)
+        nodes = {0.0, bs[0] / 2, bs[-1] * 1.25, bs[-1] * 3.0}
+        for x, y in zip(bs, bs[1:]):
+            nodes.add((x + y) / 2)
+        nodes.update(bs[::3])
+        rpts = sorted(nodes)
+        return rpts, [float(1 + (k % 4)) / 8 for k in range(len(rpts))], f"rgrid=<{len(rpts)} points: 0, one inside every sector, some on the sector bounds>"
+
+    # jobs: (preset, element, method, grid kind, centre, rotate)
+    jobs = []
     for (p, a) in pairs:
-        kind, rad, npt = presets[p]["rows"][a]
-        ctype = count_type(p, a)
+        kind = presets[p]["rows"][a][0]
         meth = "lebedev" if (ctx.quick or rng.random() < 0.8) else rng.choice(["spherical", "maxdet", "ahrens_beylkin"])
-        rotate = 0 if rng.random() < 0.7 else rng.randint(1, 1000)
-        center = rand_center(rng)
+        gk = "default" if (kind == "F" and a in params and (p, a) not in model_bad and rng.random() < 0.5) else ("geometric" if kind == "I" or rng.random() < 0.5 else "sector")
+        jobs.append((p, a, meth, gk, rand_center(rng), 0 if rng.random() < 0.7 else rng.randint(1, 1000), True))
+    # every preset with the three non-default angular methods: a node in every sector incl. r = 0, off-origin centre
+    n_el = 2 if ctx.quick else 12
+    for p in presets:
+        ats = sorted(presets[p]["rows"])
+        first = [a for a in (1, 8, 18, 26) if a in presets[p]["rows"]][:1]
+        els = first + rng.sample([a for a in ats if a not in first], min(n_el - len(first), len(ats) - len(first)))
+        for a in els:
+            for meth in ("spherical", "maxdet", "ahrens_beylkin"):
+                kind = presets[p]["rows"][a][0]
+                cen = [rng.choice([-1, 1]) * rng.randint(1, 40) / 8.0 for _ in range(3)]
+                jobs.append((p, a, meth, "geometric" if kind == "I" else "sector", cen, 0 if rng.random() < 0.6 else rng.randint(1, 1000), False))
+    ctx.cov["preset_pairs_total"] = len(all_pairs)
+    ctx.cov["preset_pairs_constructed"] = len(pairs)
+    ctx.cov["preset_constructions"] = len(jobs)
+
+    for (p, a, meth, gk, center, rotate, first_visit) in jobs:
+        kind, rad, npt = presets[p]["rows"][a]
+        is_count = kind == "I"
         cen = np.zeros(3) if center is None else np.array(center)
-        # _get_rgrid_size against the model
         n_pre = prescribed(p, a)
-        ctx.case(("rgrid_size", p, a))
-        case(f"match get_rgrid_size impl_cfg preset_tables {coq_str(p)} {z(a)} with Some n => "
-             + (f"n =? {n_pre}" if n_pre is not None else "false") + " | None => " + ("false" if n_pre is not None else "true") + " end",
-             {"kind": "rgrid_size", "key": f"_get_rgrid_size('{p}', {a})", "obs": n_pre})
-        # radial grid: of the prescribed size where one is prescribed; reaches beyond every sector radius
-        use_default = (not ctype) and kind == "F" and (a in params) and (p, a) not in model_bad and rng.random() < 0.5
-        if ctype:
-            n = n_pre if n_pre is not None else (sum(int(x) for x in rad) if kind == "I" else 30)
-        else:
-            n = rng.randint(12, 40)
+        if first_visit:      # _get_rgrid_size against the model
+            ctx.case(("rgrid_size", p, a))
+            case(f"match get_rgrid_size impl_cfg preset_tables {coq_str(p)} {z(a)} with Some n => "
+                 + (f"n =? {n_pre}" if n_pre is not None else "false") + " | None => " + ("false" if n_pre is not None else "true") + " end",
+                 {"kind": "rgrid_size", "key": f"_get_rgrid_size('{p}', {a})", "obs": n_pre})
+            want_n = (sum(int(x) for x in presets[p]["r_points"]) if (presets[p]["r_points"] is not None and is_count and p == "sg_1")
+                      else (sum(int(x) for x in rad) if is_count else None))
+            if is_count and n_pre != want_n:
+                report(0, "corr_rgrid_size", f"_get_rgrid_size('{p}', {a})", n_pre, f"_get_rgrid_size('{p}', {a}) = {n_pre}, the data file prescribes {want_n} radial points",
+                       {"reproduce": f"_get_rgrid_size('{p}', {a})"})
+        use_default = gk == "default"
         if use_default:
             st, g = observe(lambda: AtomGrid.from_preset(a, p, None, center=cen, rotate=rotate, method=meth))
             rdesc = "rgrid=None"
             rpts = [float(x) for x in g.rgrid.points] if st == "ok" else None
             rw = [float(x) for x in g.rgrid.weights] if st == "ok" else None
+            n = params[a][2]
             if st == "ok" and len(rpts) != params[a][2]:
                 report(n, "corr_default_rgrid", f"AtomGrid.from_preset({a}, '{p}').rgrid.size", len(rpts),
                        f"default radial grid of element {a} has {len(rpts)} points, the parameter table says {params[a][2]}", {"atnum": a, "preset": p})
         else:
-            top = 70.0
-            rpts = [0.0] + [float(2.0 ** (-8 + (np.log2(top) + 8) * k / (n - 1))) for k in range(1, n)] if n > 1 else [1.0]
-            rw = [float(1 + (k % 3)) / 4 for k in range(n)]
-            rdesc = f"rgrid=<{n} points 0, 2^-8..70 geometric>"
+            if is_count:
+                rpts, rw, rdesc = geometric_grid(n_pre if n_pre is not None else sum(int(x) for x in rad))
+            elif gk == "sector" and len(rad) > 0:
+                rpts, rw, rdesc = sector_grid(rad)
+            else:
+                rpts, rw, rdesc = geometric_grid(rng.randint(12, 40))
+            n = len(rpts)
             st, g = observe(lambda: AtomGrid.from_preset(a, p, make_rgrid(rpts, rw), center=cen, rotate=rotate, method=meth))
         key = f"AtomGrid.from_preset(atnum={a}, preset='{p}', {rdesc}, center={center}, rotate={rotate}, method='{meth}')"
-        ctx.case(("preset", p, a))
-        ctx.count(f"preset:{'count' if ctype else 'radius'}:{meth}")
+        ctx.case(("preset", p, a, meth, gk))
+        ctx.count(f"preset:{'count' if is_count else 'radius'}:{meth}")
         rp = {"atnum": a, "preset": p, "rgrid_points": rpts, "rgrid_weights": rw, "center": center, "rotate": rotate, "method": meth,
               "default_rgrid": use_default}
         if st == "exc":
@@ -975,27 +1059,14 @@ def _run(ctx: Ctx):
         obs = grid_obs(g)
         case(f"opt_pair_eqb (light_preset dtab ntab QOps impl_cfg preset_tables {CTOR[meth]} {z(a)} {coq_str(p)} {ql(rpts)}) "
              f"(Some ({zl(obs['degs'])}, {zl(obs['idx'])}))", {"kind": "preset", "key": key, "pair": (p, a)})
-        # the property itself: product structure, prescribed length, no shell coarser than tabulated
-        bad = None
-        if len(obs["degs"]) != len(rpts):
-            bad = ("length", f"{len(obs['degs'])} shells for {len(rpts)} radial points")
-        else:
-            for k in range(len(rpts)):
-                rs = resolve_deg(tabs, meth, obs["degs"][k])
-                want = tab_size(p, a, rpts, k)
-                if rs is None or rs[0] != obs["degs"][k] or rs[1] < want:
-                    bad = ("coarser", f"shell {k} (r={rpts[k]!r}) has degree {obs['degs'][k]} (size {rs[1] if rs else None}), tabulated size {want}")
-                    break
-        if bad is None:
-            v = judge_grid(sph, tabs, meth, rpts, rw, obs["degs"], cen, rotate, obs)
-            if v is not None:
-                bad = v
+        bad = judge_preset(sph, tabs, presets[p]["rows"][a], meth, rpts, rw, cen, rotate, obs)
         if bad is not None:
-            report(len(rpts), "presets_build_partial" if bad[0] in ("length", "coarser", "degrees") else "shell_points_weights",
-                   key, bad[0], f"{key}: {bad[1]}", rp)
+            for ob in (("presets_build_partial", "presets_bad_rows_listed") if bad[0] in ("length", "coarser") else
+                       (("presets_build_partial",) if bad[0] == "degrees" else ("shell_points_weights",))):
+                report(len(rpts), ob, key, bad[0], f"{key}: {bad[1]}", rp)
     # default radial grid exists exactly for the tabulated parameter rows
     for a in range(1, 101):
-        p = next((q for q in ("fine", "coarse", "sg_1") if q in presets and a in presets[q]["rows"] and not count_type(q, a)), None)
+        p = next((q for q in ("fine", "coarse", "sg_1") if q in presets and a in presets[q]["rows"] and presets[q]["rows"][a][0] == "F"), None)
         if p is None:
             continue
         st, g = observe(lambda: AtomGrid.from_preset(a, p, None).rgrid.size)
@@ -1037,12 +1108,12 @@ def _run(ctx: Ctx):
         case((f"is_none" if st == "exc" else "negb (is_none") + f" (light_preset dtab ntab QOps impl_cfg preset_tables Lebedev {z(a)} {coq_str(p)} {ql(rpts)})"
              + ("" if st == "exc" else ")"), {"kind": "witness_model", "key": key, "raised": st == "exc"})
         if st == "exc":
-            ctx.fail("presets_bad_rows_listed", key, g.split(":")[0],
-                     f"{key} raises {g}: {why}; the property requires a grid of {len(rpts)} shells", {"reproduce": key, "theorem": thm, "row": {"rad": rad, "npt": npt}})
+            report(0, "presets_bad_rows_listed", key, g.split(":")[0],
+                   f"{key} raises {g}: {why}; the property requires a grid of {len(rpts)} shells", {"reproduce": key, "theorem": thm, "row": {"rad": rad, "npt": npt}})
         else:
-            n_ok = len(g.degrees) == len(rpts)
-            if not n_ok:
-                report(0, "presets_build_partial", key, "length", f"{key} builds {len(g.degrees)} shells for {len(rpts)} radial points", {"reproduce": key})
+            badw = judge_preset(sph, tabs, presets[p]["rows"][a], "lebedev", rpts, [1.0] * len(rpts), np.zeros(3), 0, grid_obs(g))
+            if badw is not None:
+                report(0, "presets_build_partial", key, badw[0], f"{key}: {badw[1]}", {"reproduce": key})
         ctx.notes.append(f"witness {p}/{a}: " + ("raises " + g if st == "exc" else "builds"))
 
     # ------------------------------------------------------------------ E. hypotheses validated numerically; factorisation
@@ -1086,13 +1157,15 @@ def _run(ctx: Ctx):
 
     lap("witness+numeric")
     # ------------------------------------------------------------------ F. model versus implementation, inside Coq
-    # shared definitions (angular grids, rotation oracles, model grids) are compiled once; the case files import them
-    ok, out = ctx.coq_run("C05_casedefs.v", HEADER0 + sph.header() + "\n".join(defs) + "\n", timeout=900)
-    if not ok:
-        ctx.logs["C05_casedefs.v"] = out[-3000:]
-        raise RuntimeError("case definitions do not compile: " + out[-400:])
-    hdr = HEADER0 + "From P Require Import C05_casedefs.\n"
-    bad = ctx.coq_bool_cases("C05_cases", hdr, cases, shard=max(8, len(cases) // 32 + 1), timeout=1500)
+    bad = []
+    if coq_ok:
+        # shared definitions (angular grids, rotation oracles, model grids) are compiled once; the case files import them
+        ok, out = ctx.coq_run("C05_casedefs.v", HEADER0 + sph.header() + "\n".join(defs) + "\n", timeout=900)
+        if not ok:
+            ctx.logs["C05_casedefs.v"] = out[-3000:]
+            raise RuntimeError("case definitions do not compile: " + out[-400:])
+        hdr = HEADER0 + "From P Require Import C05_casedefs.\n"
+        bad = ctx.coq_bool_cases("C05_cases", hdr, cases, shard=max(8, len(cases) // 32 + 1), timeout=1500)
     lap("coq_cases")
     judged = {(pe[1], pe[2]) for pe in pending}
     for i in bad:
@@ -1141,6 +1214,7 @@ def _run(ctx: Ctx):
         "distinct = calls + shell grids + preset pairs + lookups")
     ctx.cov["coq_cases"] = len(cases)
     ctx.cov["impl_cfg"] = cfg
+    ctx.cov["coq_tie_ran"] = coq_ok
     ctx.cov["preset_build_failures"] = {f"{p}/{a}": e for (p, a), e in built_failures.items()}
     ctx.trusted += [
         "hand model coq/C05/C05_model.v of AtomGrid (constructor, points, get_shell_grid, from_pruned, from_preset branch logic, _get_rgrid_size), "
@@ -1164,17 +1238,42 @@ def _run(ctx: Ctx):
 
 def run(ctx: Ctx):
     ctx._pending = []
+    ctx._tie = None
     try:
         _run(ctx)
+    except Exception as e:  # noqa: BLE001 - a crash of the harness breaks the tie; what the search found so far is still reported
+        import traceback
+
+        print(traceback.format_exc(), file=sys.stderr)
+        if ctx._tie is None:
+            ctx._tie = ("harness(c05.py)", e)
     finally:
-        # report (smallest inputs first, capped per obligation)
-        per = {}
-        for size, ob, key, obs_, text, rp, found in sorted(ctx._pending, key=lambda t: (t[0], len(str(t[2])))):
-            per[ob] = per.get(ob, 0) + 1
-            if per[ob] <= MAXREP:
-                ctx.fail(ob, key, obs_, text, rp, found_input=found)
-        if ctx._pending:
-            ctx.notes.append(f"{len(ctx._pending)} disagreements in total; at most {MAXREP} reported per obligation: " + json.dumps(per))
+        items = sorted(ctx._pending, key=lambda t: (t[0], len(str(t[2]))))
+        if ctx._tie is not None:
+            # the extraction failed closed / the model does not build: every implementation-side oracle has still run;
+            # the first failing input that is not a listed known finding becomes the replay
+            cands = []
+            for size, ob, key, obs_, text, rp, found in items:
+                if found and not ctx.is_known(key, obs_):
+                    cands.append((key, obs_, text, rp))
+                elif found:
+                    ctx.fail(ob, key, obs_, text, rp)
+            ctx.broken_tie(ctx._tie[0], ctx._tie[1], cands)
+        else:
+            per = {}
+            for size, ob, key, obs_, text, rp, found in items:     # smallest inputs first, capped per obligation
+                per[ob] = per.get(ob, 0) + 1
+                if per[ob] <= MAXREP:
+                    ctx.fail(ob, key, obs_, text, rp, found_input=found)
+            if items:
+                ctx.notes.append(f"{len(items)} disagreements in total; at most {MAXREP} reported per obligation: " + json.dumps(per))
+            # a proof about the generated definitions broke and no failing input was attached to it: attach the first
+            # failing input the oracles found (if any)
+            explicit = {f.obligation for f in ctx.failures}
+            cands = [(key, obs_, text, rp) for _, _, key, obs_, text, rp, found in items if found]
+            for name, ob in list(ctx.obligations.items()):
+                if ob["status"] != "discharged" and name not in explicit:
+                    ctx.broken_tie(name, f"theorem {name} ({ob['file']}) no longer checks", cands)
 
 
 # ====================================================================== replay
@@ -1189,21 +1288,23 @@ def replay(rp):
         return 1 if st == "exc" else 0
     if "atnum" in rp and "preset" in rp and rp.get("rgrid_points") is not None:
         rg = OneDGrid(np.array(rp["rgrid_points"]), np.array(rp["rgrid_weights"]), (0, np.inf))
+        cen = np.zeros(3) if rp["center"] is None else np.array(rp["center"])
         st, v = observe(lambda: AtomGrid.from_preset(rp["atnum"], rp["preset"], None if rp.get("default_rgrid") else rg,
-                                                     center=None if rp["center"] is None else np.array(rp["center"]),
-                                                     rotate=rp["rotate"], method=rp["method"]))
-        print("observed:", v if st == "exc" else f"built {len(v.degrees)} shells, degrees {list(map(int, v.degrees))[:12]}...")
-        if st == "exc" and not rp.get("default_rgrid"):
-            # a radial grid that is not of the size this source tree prescribes for the element may be rejected
-            from grid.atomgrid import _get_rgrid_size
-
-            cfg, _ = extract_cfg()
-            ctype = rp["preset"] in cfg["count_presets"] or (rp["preset"] == cfg["thr_preset"] and rp["atnum"] > cfg["thr"])
-            s2, n2 = observe(lambda: int(_get_rgrid_size(rp["preset"], rp["atnum"])[0]))
-            if ctype and s2 == "ok" and n2 != len(rp["rgrid_points"]) and v.startswith("ValueError: The shape of radial grid"):
-                print(f"not a failure on this tree: the preset prescribes {n2} radial points, the replayed grid has {len(rp['rgrid_points'])}")
+                                                     center=cen, rotate=rp["rotate"], method=rp["method"]))
+        row = load_presets()[rp["preset"]]["rows"][rp["atnum"]]
+        if st == "exc":
+            print("observed:", v)
+            n_want = sum(int(x) for x in row[1]) if row[0] == "I" else None
+            if n_want is not None and n_want != len(rp["rgrid_points"]) and v.startswith("ValueError: The shape of radial grid") and not rp.get("default_rgrid"):
+                print(f"not a failure on this tree: the data file prescribes {n_want} radial points, the replayed grid has {len(rp['rgrid_points'])}")
                 return 0
-        return 1 if st == "exc" else 0
+            return 1
+        tabs, _ = extract_tables()
+        rpts = [float(x) for x in v.rgrid.points]
+        bad = judge_preset(Spheres(None, tabs), tabs, row, rp["method"], rpts, [float(x) for x in v.rgrid.weights], cen, rp["rotate"], grid_obs(v))
+        print(f"built {len(v.degrees)} shells, degrees {list(map(int, v.degrees))[:16]}...")
+        print("FAILS: " + bad[0] + " - " + bad[1] if bad else "the grid satisfies the property on this source tree")
+        return 1 if bad else 0
     if "call" in rp:
         d = rp["call"]
         d["spec"] = (d["spec"][0], list(d["spec"][1]))
